@@ -96,5 +96,9 @@ def _value_zero(inp):
 @predicate("hyper_terminating_degree_ge_100")
 def _hyper_big_degree(inp):
     A, B, z = _hyper_split(inp)
-    return any(a.denominator == 1 and a <= -100 for a in A)
+    if any(a.denominator == 1 and a <= -100 for a in A):
+        return True
+    # formally divergent type (p >= q + 2): the terms grow factorially up to the termination index, so the cancellation
+    # outruns hypsum's retries already at degree 50
+    return len(A) >= len(B) + 2 and any(a.denominator == 1 and a <= -50 for a in A)
 
